@@ -13,7 +13,9 @@ ASSUMPTIONS = [
     'regions have their nominal sizes before the call (0x2000/0x1000/0x100/'
     '0x100/0x1100) - the invariant the check itself re-establishes',
     'data is a bytes-like value; region and data contents are uninterpreted',
-    'sequences of writes follow by induction on the one-step lemma',
+    'sequences of writes follow by induction on the one-step lemma; the '
+    'hypothesis (nominal sizes, regions editable and not shared with the '
+    'argument) is re-checked by a second, one-byte write into every region',
 ]
 OUTSIDE = ['start_addr < 0 or > 0x4310; data longer than 0x4310 bytes '
            '(both rejected by the same comparison, which is linear)']
@@ -64,6 +66,27 @@ def write(x, p):
                     expect = data[a - start]
             x.out('new', new)
             x.check('content at fresh address', new == expect)
+    # Second step of a history: every region must still be an ordinary,
+    # editable region of the cart that shares nothing with the caller's
+    # argument (the induction hypothesis of the one-step lemma), shown by
+    # actually making a further one-byte write into each region.
+    if raised:
+        return
+    for name, cls, lo, hi in REGIONS:
+        region = getattr(g, name)._data
+        x.check('region ' + name + ' is not the caller\'s object',
+                region is not data)
+        v2 = x.int('second.' + name, 0, 255)
+        try:
+            g.write_cart_data(bytes([v2]), lo + 1)
+            back = getattr(g, name)._data[1]
+        except Exception as e:
+            x.check('a second write into ' + name + ' works', False,
+                    info=repr(e))
+            return
+        x.check('second write into ' + name + ' reads back', back == v2)
+        x.check('size of ' + name + ' kept by the second write',
+                hx.length(getattr(g, name)._data) == hi - lo)
 
 
 HARNESSES = [
